@@ -163,13 +163,13 @@ class PauseLoop(LoopSpec):
 
     def preserve(self, ex, p):
         n0, em, pt = p.ghost['pause_n0'], p.ghost['pause_em'], p.ghost['pause_pt']
-        new = [e for e in p.events[p.ghost['pause_mark']:] if e[0] == 'write']
+        new = [e[1] for e in p.events[p.ghost['pause_mark']:] if e[0] == 'write']
         obs = []
         d = p.env.get('time_delay')
         if self.strict:
             ok_shape = len(new) == 1 and isinstance(d, VInt)
             if ok_shape:
-                want = T('SM,', d, ',0,0\r' if self.legacy else ',0,0\r').with_kind('bytes')
+                want = T('SM,', d, ',0,0\r').with_kind('bytes')
                 ok_shape = new[0].struct_eq(want) is True
             obs.append(('one-write-SM,d,0,0', z3.BoolVal(bool(ok_shape))))
         if isinstance(d, VInt):
